@@ -819,6 +819,103 @@ def k3_extract_symbol(ctx: Ctx, nodes: list[tuple[str, bytes]]) -> None:
     ctx.coverage["k3_disagreements"] = nd
 
 
+# ------------------------------------------------------------------------------------------ hash-seed determinism
+def hashseed_search(ctx: Ctx, corp: dict, librt_dir: str, broken: list[str]) -> None:
+    """"The serialised bytes are a deterministic function of the interface": the same sources are built in child
+    processes under several PYTHONHASHSEED values and every module of the build is serialised in both formats; any
+    difference is reported with the module, the symbol, the two seeds and the differing field (decoded by the model
+    for the binary format, by a JSON walk for the JSON format).  The sources are modules made of every set-/dict-
+    valued construct of the schemas (__slots__ incl. inherited and dataclass slots, abstract attributes, protocol
+    members, TypedDict required/readonly keys, enum members, __all__, __future__ flags, type variables, deletable
+    attributes) plus generated feature modules and stdlib stubs that declare __slots__."""
+    import subprocess
+    from concurrent.futures import ThreadPoolExecutor
+    from harness.c11 import corpus
+    from harness.vlib.core import PY, repo_env
+    rng = ctx.rng
+    root = os.path.join(ctx.tmp, "hs_src")
+    os.makedirs(root, exist_ok=True)
+    files: dict[str, str] = {}
+    ndet = ctx.pick(3, 10) + (3 if broken else 0)
+    for k in range(ndet):
+        name, text = corpus.gen_det_module(rng, k)
+        files[name] = text
+    files["c11_det_star"] = "".join(f"from c11_det{k} import *\n" for k in range(ndet))
+    files["c11_det_std"] = "import statistics, uuid, io, asyncio.transports, asyncio.protocols, asyncio.events, typing_extensions\n"
+    for m in ["c11_td", "c11_enum", "c11_ts"] + corp["generated"][: ctx.pick(2, 6)]:
+        files[m] = corp["files"][m]
+    for m, text in files.items():
+        with open(os.path.join(root, m + ".py"), "w") as f:
+            f.write(text)
+    nseeds = ctx.pick(4, 8) + (2 if broken else 0)
+    seeds = ["0"] + [str(rng.randrange(1, 4_000_000_000)) for _ in range(nseeds - 1)]
+    child = os.path.join(os.path.dirname(os.path.abspath(__file__)), "hashseed_child.py")
+
+    def run(seed: str):
+        out = os.path.join(ctx.tmp, "hs_out_" + seed)
+        env = repo_env({"PYTHONHASHSEED": seed})
+        env["PYTHONPATH"] = librt_dir + os.pathsep + env["PYTHONPATH"]
+        try:
+            p = subprocess.run([PY, child, root, out] + sorted(files), env=env, capture_output=True, text=True, timeout=900,
+                               cwd=ctx.tmp)
+        except subprocess.TimeoutExpired:
+            raise ToolFailure("hash-seed child timed out")
+        if p.returncode != 0 or not os.path.exists(os.path.join(out, "index.json")):
+            return seed, out, None, (p.stdout + p.stderr)[-1500:]
+        return seed, out, json.load(open(os.path.join(out, "index.json"))), ""
+    with ThreadPoolExecutor(max_workers=4) as ex:
+        results = list(ex.map(run, seeds))
+    bad = [r for r in results if r[2] is None]
+    if bad:
+        if len(bad) == len(results):
+            raise ToolFailure("hash-seed children failed: " + bad[0][3])
+        ctx.report({"class": "crash", "phase": "serialise-under-hash-seed"},
+                   f"serialising the corpus fails under PYTHONHASHSEED={bad[0][0]} but not under {[r[0] for r in results if r[2]][0]}: "
+                   f"{bad[0][3][-300:]}", {"hash_seed": bad[0][0], "log": bad[0][3], "sources": files})
+        results = [r for r in results if r[2] is not None]
+    s0, out0, idx0, _ = results[0]
+    nmods = len(idx0)
+    ctx.coverage["hashseed"] = {"hash_seeds": [r[0] for r in results], "modules": nmods, "generated_modules": len(files),
+                                "formats": ["binary", "json"], "differing": 0}
+    reported = 0
+    for s1, out1, idx1, _ in results[1:]:
+        for mod in sorted(idx0):
+            for fmt, ext in (("binary", "bin"), ("json", "json")):
+                ctx.case(("HS", fmt, mod, s1), nontrivial=True)
+                ctx.dist("hashseed_cases", fmt)
+                if mod not in idx1 or idx0[mod][ext] == idx1[mod][ext]:
+                    continue
+                ctx.coverage["hashseed"]["differing"] += 1
+                ctx.count("disagreements_checked")
+                if reported >= 2:
+                    continue
+                reported += 1
+                k = 0 if fmt == "binary" else 1
+                syms = [n for n, d in idx0[mod]["symbols"].items() if idx1[mod]["symbols"].get(n, [None, None])[k] != d[k]]
+                a = open(os.path.join(out0, f"{mod}.{ext}"), "rb").read()
+                b = open(os.path.join(out1, f"{mod}.{ext}"), "rb").read()
+                off = next((j for j, (x, y) in enumerate(zip(a, b)) if x != y), min(len(a), len(b)))
+                field = ""
+                if fmt == "binary" and len(a) < 600_000:
+                    try:
+                        fd = ctx.lean_driver("Driver/C11.lean", [f"FD MypyFile 400 {a.hex()} {b.hex()}"])[0]
+                        field = fd[5:] if fd.startswith("diff ") else fd
+                    except ToolFailure:
+                        field = ""
+                elif fmt == "json":
+                    from harness.c11 import dump as _dump
+                    dd = _dump.diff(json.loads(a), json.loads(b))
+                    field = f"{dd[0][0]} :: {dd[0][1][:80]} :: {dd[0][2][:80]}" if dd else ""
+                ctx.report({"class": "bytes-depend-on-hash-seed", "format": fmt},
+                           f"module {mod} serialises to different {fmt} bytes (hence a different interface hash) under "
+                           f"PYTHONHASHSEED={s0} and PYTHONHASHSEED={s1}: symbol(s) {syms[:4]}, first difference at byte {off}"
+                           + (f", field {field[:200]}" if field else ""),
+                           {"module": mod, "format": fmt, "hash_seeds": [s0, s1], "symbols": syms[:20], "first_difference": off,
+                            "field": field, "context_seed_a": repr(a[max(0, off - 24): off + 40]),
+                            "context_seed_b": repr(b[max(0, off - 24): off + 40]),
+                            "broken_obligations": broken, "sources": files, "modules": sorted(files)})
+
+
 # ------------------------------------------------------------------------------------------ object-level flag combinations
 def flag_subsets(rng, names: list[str], nrand: int) -> list[set[str]]:
     out: list[set[str]] = [set(), set(names)]
@@ -1079,9 +1176,10 @@ def main(ctx: Ctx) -> None:
         "ints beyond 2^28 bytes and strings beyond 536860911 bytes are rejected by the writer (IntOk/StrOk side conditions)",
         "fresh-vs-reloaded comparison covers the modules of the corpus (typeshed stdlib selection + generated programs), "
         "not every program; the proofs cover every value of the extracted schemas")
-    use_repo_librt(ctx)
+    librt_dir = use_repo_librt(ctx)
     res = run_translators(ctx)
     proved = ctx.prove("MypyVerif.Props.C11", MODEL_FILES)
+    sorted_broken = [w for w in explain_broken(res) if w.startswith("interface_maps_sorted")] if not proved else []
     from translate import codec_consts
     consts = codec_consts.c_defines(REPO)
     k1_primitives(ctx, consts)
@@ -1091,6 +1189,7 @@ def main(ctx: Ctx) -> None:
         structural_roundtrip(ctx, corp)
         k2_schemas(ctx, os.path.join(ctx.tmp, "cache_binary"), corp)
         k3_extract_symbol(ctx, getattr(ctx, "node_bytes", []))
+        hashseed_search(ctx, corp, librt_dir, sorted_broken)
         if not ctx.quick():
             # the version-gated parts of typeshed: the same round trip for another target version
             from harness.c11 import corpus as _corpus
